@@ -314,8 +314,13 @@ def gen_case_L(rng, big=False):
     peers = 'BCD'[:nb]
     egress = [f'Edfa_booster_roadm A_to_fiber A{x}' for x in peers]
     ingress = [f'Edfa_preamp_roadm A_from_fiber {x}A' for x in peers]
+    # the same ROADM configuration authored as a workbook (Nodes / Links / Eqpt / Roadms sheets) and converted
+    xls = rng.random() < 0.22
+    if xls:
+        egress = [f'east edfa in A to {x}' for x in peers]          # the names the converter gives to the amplifiers
+        ingress = [f'west edfa in A to {x}' for x in peers]
     fused = None
-    if rng.random() < 0.4:
+    if not xls and rng.random() < 0.4:
         # a neighbour ROADM F reached through fused elements only (no amplifier): its own target feeds roadm A
         kf = rng.randrange(3)
         fused = {'policy': {POL[kf]: gen_policy_value(rng, POL[kf])},
@@ -326,7 +331,7 @@ def gen_case_L(rng, big=False):
     eqp, elp = {}, {}
     k = rng.randrange(3)
     eqp[POL[k]] = gen_policy_value(rng, POL[k], zero_ok=0.05)
-    if u < 0.30:
+    if u < 0.30 or (xls and u < 0.86):
         pass                                                        # element silent: library default applies
     elif u < 0.78:
         k2 = rng.randrange(3)
@@ -347,8 +352,10 @@ def gen_case_L(rng, big=False):
     p_each = rng.choice([0.0, 0.3, 0.3, 0.6, 1.0])
     if any(v is None for v in elp.values()) or any(v is None for v in eqp.values()):
         p_each = rng.choice([0.3, 1.0, 1.0])
+    if xls:
+        elp = {}                                                    # a Roadms sheet has no column for a node-level policy
     case = {'kind': 'L', 'peers': peers, 'eq_policy': eqp, 'policy': elp,
-            'per_degree': gen_per_degree(rng, egress + (['trx A'] if rng.random() < 0.1 else []), p_each),
+            'per_degree': gen_per_degree(rng, egress + (['trx A'] if rng.random() < 0.1 and not xls else []), p_each),
             'pmd': rng.choice([0, 1e-12]), 'pdl': rng.choice([0, 0.5]), 'profiles': gen_profiles(rng),
             'lengths': [rng.choice([20, 40, 60, 80]) for _ in peers], 'fused_peer': fused,
             'pref': rng.choice([0, 0, 0, -2, -1, 1, 2.5, 3])}
@@ -374,12 +381,27 @@ def gen_case_L(rng, big=False):
         if (i['from_degree'], i['to_degree']) not in seen or rng.random() < 0.3:     # a repeated pair: the later entry wins
             seen.add((i['from_degree'], i['to_degree']))
             case['per_degree_impairments'].append(i)
+    if xls:
+        # what a Roadms sheet can say: one row per direction A -> z with a dBm target and / or the impairment ids chosen for
+        # the listed ingress directions; the configuration the oracle resolves from IS the sheet (derived right here)
+        rows = []
+        for x in peers:
+            ex = [i for i in case['per_degree_impairments'] if i['to_degree'] == f'east edfa in A to {x}'
+                  and i['from_degree'].startswith('west edfa in A to ')]
+            tgt = next((tab[f'east edfa in A to {x}'] for k, tab in case['per_degree'].items() if f'east edfa in A to {x}' in tab), None)
+            rows.append({'z': x, 'target': None if tgt is None else round(float(tgt), 2) if tgt > -1 else round(rng.uniform(-26, -8), 1),
+                         'from': [i['from_degree'][len('west edfa in A to '):] for i in ex] or None,
+                         'ids': [i['impairment_id'] for i in ex] or None})
+        case['xls'] = {'rows': rows, 'fmt': 'xlsx'}
+        case['per_degree'] = {PDEG[0]: {f"east edfa in A to {r['z']}": r['target'] for r in rows if r['target'] is not None}}
+        case['per_degree_impairments'] = [{'from_degree': f'west edfa in A to {f}', 'to_degree': f"east edfa in A to {r['z']}",
+                                           'impairment_id': i} for r in rows if r['from'] for f, i in zip(r['from'], r['ids'])]
     case['seeds'] = [rng.randrange(1 << 30) for _ in range(rng.randint(1, 3) if not big else 1)]
     case['big'] = big
     # amplifier settings upstream of the ingress degrees (delta_p, out_voa) for a second, direct call of
     # set_roadm_input_powers: the auto-design alone always leaves out_voa = 0 on the preamplifiers
     case['amp_settings'] = [[round(rng.uniform(-3, 3), 2), rng.choice([0, 0.5, 1, 2.5])] for _ in peers] \
-        if rng.random() < 0.7 else None
+        if rng.random() < 0.7 and not xls else None
     # persistence: the designed network is saved and loaded again through the routes the tool offers, designed again, and
     # every crossing must still obey the ORIGINAL configuration
     u = rng.random()
@@ -553,6 +575,35 @@ def topo_L(case):
     return {'elements': els, 'connections': [{'from_node': a, 'to_node': b} for a, b in cx]}
 
 
+def workbook_L(case):
+    """the topology of the case written as a real .xlsx workbook and converted by gnpy.tools.convert"""
+    import tempfile
+    from pathlib import Path
+    from gnpy.tools import convert
+    from . import c20                                   # workbook writer of the spreadsheet property
+
+    def side(d):
+        return {'distance': d, 'fiber': 'SSMF', 'lineic': None, 'con_in': None, 'con_out': None, 'pmd': None, 'cable': None}
+
+    def amp(t):
+        return {'amp_type': t, 'att_in': None, 'amp_gain': None, 'amp_dp': None, 'tilt': None, 'att_out': None}
+    cities = 'A' + case['peers']
+    rows = case['xls']['rows']
+    book = {'layout': {'side': c20.SIDE_KEYS, 'amp': c20.AMP_KEYS, 'no_dp': False, 'pad': False},
+            'nodes': [{'city': x, 'state': None, 'country': None, 'region': None, 'latitude': 0, 'longitude': 0, 'type': 'ROADM',
+                       'booster': None, 'preamp': None} for x in cities],
+            'links': [{'a': 'A', 'z': z, 'east': side(ln), 'west': side(ln)} for z, ln in zip(case['peers'], case['lengths'])],
+            'eqpts': [{'a': 'A', 'z': z, 'east': amp('std_medium_gain'), 'west': amp('std_low_gain')} for z in case['peers']],
+            'roadms': [{'a': 'A', 'z': r['z'], 'target': r['target'], 'variety': 'c06' if k == 0 else None,
+                        'fd': ' | '.join(r['from']) if r['from'] else None,
+                        'imp': ' | '.join(str(i) for i in r['ids']) if r['from'] else None} for k, r in enumerate(rows)],
+            'services': None}
+    with tempfile.TemporaryDirectory(dir=common.WORK) as td:
+        fn = Path(td) / 'topology.xlsx'
+        c20.write_xlsx(book, fn)
+        return convert.xls_to_json_data(fn)
+
+
 def feeds_of(net, roadm, case):
     """what feeds each ingress degree of `roadm`: walk upstream through fibres / fused elements (losses add up) to the
     first transceiver, amplifier or ROADM — topology and amplifier settings, i.e. inputs of the ROADM design step"""
@@ -594,7 +645,7 @@ def drive_L(case, rng_mod):
         obs['stage'] = ('equipment', type(e).__name__, str(e)[:160])
         return obs
     try:
-        net = json_io.network_from_json(topo_L(case), eq)
+        net = json_io.network_from_json(workbook_L(case) if case.get('xls') else topo_L(case), eq)
     except Exception as e:
         obs['stage'] = ('load', type(e).__name__, str(e)[:160])
         return obs
@@ -734,6 +785,16 @@ def gen_case_R(rng):
         if rng.random() < 0.8:
             m['equalization_offset_db'] = rng.choice([0, 1, -1.5, 2.5, 3, -3, round(rng.uniform(-4, 4), 2)])
         modes.append(m)
+    if rng.random() < 0.5:
+        # two modes of one baud rate that differ by their equalisation offset (explored one after the other, each on a
+        # spectrum built with its own offset); thresholds drawn so that the first explored one is often infeasible
+        base = rng.choice(modes)
+        hi, lo = rng.sample([3, 2, 1.5, 0, -1, -2.5], 2)
+        base['equalization_offset_db'] = max(hi, lo)
+        base['OSNR'] = rng.choice([45, 45, 38, 15])
+        twin = dict(base, format=f'mode {len(modes)}', equalization_offset_db=min(hi, lo), OSNR=rng.choice([8, 8, 11, 45]),
+                    bit_rate=rng.choice([base['bit_rate'], 100e9, 200e9]))
+        modes.append(twin)
     reqs = []
     for j in range(rng.randint(1, 3)):
         a, b = rng.sample(NODES_R, 2)
@@ -1413,6 +1474,7 @@ def run(ctx):
             xs = obs['xs']
             term, ids = term_L(c, obs)
             ctx.count('L_cases')
+            ctx.count('L_cases_authored_as_workbook', int(bool(c.get('xls'))))
             ctx.count('L_' + ('accepted' if obs['stage'] is None else f"rejected_{obs['stage'][0]}_{obs['stage'][1]}"))
             for key, desc in oracle_L(c, obs):
                 ctx.violation(key, desc, pub)
